@@ -249,9 +249,9 @@ def step (toks : List String) : Option String :=
     let src : Nat → Tag := fun p => .at p false false
     let n := (Gen.Ysize 0 L).toNat
     let row ← match form with
-      | "method" => some (stored (-s) 0 L (conjLoopMethod Tag.neg Tag.conj s L false src (fun _ => .zero)) Tag.zero)
-      | "inplace" => some (conjLoopMethod Tag.neg Tag.conj s L true src src)
-      | "ufunc" => some (conjRow Tag.neg Tag.conj s L src (fun _ => .zero) Tag.zero)
+      | "method" => some (stored (-s) 0 L (conjLoopMethod Tag.neg Tag.conj s L false src ⟨fun _ => .zero⟩).get Tag.zero)
+      | "inplace" => some (conjLoopMethod Tag.neg Tag.conj s L true src ⟨src⟩).get
+      | "ufunc" => some (conjRow Tag.neg Tag.conj s L src ⟨fun _ => .zero⟩ Tag.zero)
       | _ => none
     pure (String.intercalate " " ((List.range n).map fun p => (row p).show))
   | ["terms", L1, L2, Lfg] => do
@@ -261,8 +261,8 @@ def step (toks : List String) : Option String :=
     let ts := terms L1 L2 Lfg
     -- number of terms, then per output index the number of contributions
     let n := (Gen.Ysize 0 Lfg).toNat
-    let counts := accumulate (· + ·) (fun _ => 1) ts (fun _ => (0 : Nat))
-    pure (toString ts.length ++ " | " ++ String.intercalate " " ((List.range n).map fun p => toString (counts p)))
+    let counts := accumulate (· + ·) (fun _ => 1) ts ⟨fun _ => (0 : Nat)⟩
+    pure (toString ts.length ++ " | " ++ String.intercalate " " ((List.range n).map fun p => toString (counts.get p)))
   | ["termlist", L1, L2, Lfg] => do
     let L1 ← L1.toInt?
     let L2 ← L2.toInt?
